@@ -483,8 +483,8 @@ def apply(c):
                 assert((vx_w0 + self.additional_records@).subrange(0, vx_w0.len() + vx_i + 1) =~= vx_w0 + self.additional_records@.subrange(0, vx_i + 1));
                 assert((vx_w0 + self.additional_records@)[vx_w0.len() + vx_i] == self.additional_records@[vx_i]);
                 lemma_step_rr(vx_b, b2, vx_p3, vx_w0 + self.additional_records@, vx_w0.len() + vx_i);""",
-          """vx_w0.len() == (if self.header.opt is Some { 1int } else { 0int }), lo == opt_rr_enc(&self.header).len(),
-                self.header.opt is Some ==> vx_w0.len() == 1 && vx_w0[0].rdata == crate::rdata::RData::OPT(self.header.opt.unwrap()),
+          """vx_w0.len() == (if self.header.opt is Some { 1int } else { 0int }), lo == opt_rr_enc(&self.header).len(), // @C09:one-opt-record,C04:opt-record-counted-and-written-once,C03:opt-record
+                self.header.opt is Some ==> vx_w0.len() == 1 && vx_w0[0].rdata == crate::rdata::RData::OPT(self.header.opt.unwrap()), // @C09:one-opt-record,C04:opt-record-counted-and-written-once,C03:opt-record
                 chain::<ResourceRecord>(io_buf(out), vx_p3, vx_w0 + self.additional_records@.subrange(0, vx_c3.index@ as int), io_buf(out).len() as int),""")
     # section boundaries
     c.ghost(rel, P_IMPL, W, "for e in vx_c1: &self.answers", """
@@ -501,47 +501,62 @@ def apply(c):
             assert(self.name_servers@.subrange(0, 0) =~= Seq::<ResourceRecord>::empty());
         }
 """, where='before')
-    c.ghost(rel, P_IMPL, W, "if let Some(rr) = self.header.opt_rr() {", """
+    jb_w, be_w = c.body(rel, P_IMPL, W)
+    has_opt_block = "if let Some(rr) = self.header.opt_rr() {" in c.rd(rel)[jb_w:be_w]
+    P3DECL = """
         let ghost vx_p3 = io_buf(out).len() as int;
         let ghost mut vx_w0: Seq<ResourceRecord> = Seq::empty();
         proof {
             assert(self.name_servers@.subrange(0, self.name_servers@.len() as int) =~= self.name_servers@);
         }
-""", where='before')
-    c.ghost(rel, P_IMPL, W, "rr.write_to(out)?;", """
-            let ghost vx_bo = io_buf(out);
+"""
+    if has_opt_block:
+        c.ghost(rel, P_IMPL, W, "if let Some(rr) = self.header.opt_rr() {", """
+            let ghost vx_p3 = io_buf(out).len() as int;
+            let ghost mut vx_w0: Seq<ResourceRecord> = Seq::empty();
             proof {
-                lemma_opt_ttl_version(self.header.response_code, self.header.opt.unwrap().version);
-                assert(rr.name.lv().len() == 0);
-                assert(wl(rr.name.lv()) == 0);
-                assert(rr.wf_ok());
-                assert(rr.wf_canon());
-                rr.lemma_rt(vx_bo);
-                lemma_enc_be_len(rr.ttl as nat, 4);
-                assert(rr.wf_enc() =~= opt_rr_enc(&self.header)) by {
-                    assert(run(rr.name.lv()) =~= Seq::<u8>::empty());
-                    assert(name_enc(rr.name.lv()) =~= seq![0u8]);
+                assert(self.name_servers@.subrange(0, self.name_servers@.len() as int) =~= self.name_servers@);
+            }
+    """, where='before')
+        c.ghost(rel, P_IMPL, W, "rr.write_to(out)?;", """
+                let ghost vx_bo = io_buf(out);
+                proof {
+                    lemma_opt_ttl_version(self.header.response_code, self.header.opt.unwrap().version);
+                    assert(rr.name.lv().len() == 0);
+                    assert(wl(rr.name.lv()) == 0);
+                    assert(rr.wf_ok());
+                    assert(rr.wf_canon());
+                    rr.lemma_rt(vx_bo);
+                    lemma_enc_be_len(rr.ttl as nat, 4);
+                    assert(rr.wf_enc() =~= opt_rr_enc(&self.header)) by {
+                        assert(run(rr.name.lv()) =~= Seq::<u8>::empty());
+                        assert(name_enc(rr.name.lv()) =~= seq![0u8]);
+                    }
+                    lemma_refs_append(name_refs@, vx_bo, rr.wf_enc());
                 }
-                lemma_refs_append(name_refs@, vx_bo, rr.wf_enc());
-            }
-""", where='before')
-    c.ghost(rel, P_IMPL, W, "rr.write_to(out)?;", """
-            proof {
-                let b2 = io_buf(out);
-                assert(b2 =~= vx_bo + rr.wf_enc());
-                vx_w0 = seq![rr];
-                assert(b2.subrange(0, 12) =~= e0);
-                lemma_keep_q(vx_bo, b2, 12, self.questions@, vx_p1);
-                lemma_keep_rr(vx_bo, b2, vx_p1, self.answers@, vx_p2);
-                lemma_keep_rr(vx_bo, b2, vx_p2, self.name_servers@, vx_p3);
-                assert(vx_w0.drop_last() =~= Seq::<ResourceRecord>::empty());
-                assert(chain::<ResourceRecord>(b2, vx_p3, vx_w0.drop_last(), vx_p3));
-                assert(vx_w0.last() == rr);
-                assert(vx_p3 == vx_bo.len());
-                assert(ResourceRecord::wf_dec(b2, vx_p3, &vx_w0.last(), b2.len() as int));
-                assert(chain::<ResourceRecord>(b2, vx_p3, vx_w0, b2.len() as int));
-            }
-""", where='after')
+    """, where='before')
+        c.ghost(rel, P_IMPL, W, "rr.write_to(out)?;", """
+                proof {
+                    let b2 = io_buf(out);
+                    assert(b2 =~= vx_bo + rr.wf_enc());
+                    vx_w0 = seq![rr];
+                    assert(b2.subrange(0, 12) =~= e0);
+                    lemma_keep_q(vx_bo, b2, 12, self.questions@, vx_p1);
+                    lemma_keep_rr(vx_bo, b2, vx_p1, self.answers@, vx_p2);
+                    lemma_keep_rr(vx_bo, b2, vx_p2, self.name_servers@, vx_p3);
+                    assert(vx_w0.drop_last() =~= Seq::<ResourceRecord>::empty());
+                    assert(chain::<ResourceRecord>(b2, vx_p3, vx_w0.drop_last(), vx_p3));
+                    assert(vx_w0.last() == rr);
+                    assert(vx_p3 == vx_bo.len());
+                    assert(ResourceRecord::wf_dec(b2, vx_p3, &vx_w0.last(), b2.len() as int));
+                    assert(chain::<ResourceRecord>(b2, vx_p3, vx_w0, b2.len() as int));
+                }
+    """, where='after')
+
+    else:
+        # the OPT block is optional for anchoring purposes: without it the contract is still spliced and the final
+        # obligation (ARCOUNT / one OPT record) decides
+        c.ghost(rel, P_IMPL, W, "for e in vx_c3: &self.additional_records", P3DECL, where='before')
     c.ghost(rel, P_IMPL, W, "for e in vx_c3: &self.additional_records", """
         proof {
             assert(self.additional_records@.subrange(0, 0) =~= Seq::<ResourceRecord>::empty());
